@@ -7,6 +7,7 @@ import (
 	"fmt"
 	"math/rand"
 	"os"
+	"path/filepath"
 	"sort"
 	"strconv"
 	"strings"
@@ -40,6 +41,7 @@ type Event struct {
 	Unus    string          `json:"unus"`
 	Unknown []string        `json:"unknown"`
 	Panic   string          `json:"panic"`
+	TTL     string          `json:"ttl"` // where a transaction TTL of 60 days is configured: "" (nowhere) | "local" | "global"
 }
 
 func newEvent(op, mode string) *Event {
@@ -63,11 +65,13 @@ type repoDesc struct {
 	Blk    [][]int // table u (1-based) -> abstract blocks
 	Refs   []refDecl
 	Before Objs // non-commit objects to copy from the template (+ all commits)
+	TTL    string
 }
 
 func (d *repoDesc) event() *Event {
 	e := newEvent("repo", d.Mode)
 	e.N, e.Par, e.Tab, e.Blk = d.N, d.Par, d.Tab, d.Blk
+	e.TTL = d.TTL
 	for _, r := range d.Refs {
 		e.Refs = append(e.Refs, []interface{}{r.Kind, r.C, r.State})
 	}
@@ -75,7 +79,7 @@ func (d *repoDesc) event() *Event {
 }
 
 func descFromEvent(e *Event) (*repoDesc, error) {
-	d := &repoDesc{Mode: e.Mode, N: e.N, Par: e.Par, Tab: e.Tab, Blk: e.Blk, Before: e.Objs}
+	d := &repoDesc{Mode: e.Mode, N: e.N, Par: e.Par, Tab: e.Tab, Blk: e.Blk, Before: e.Objs, TTL: e.TTL}
 	for _, r := range e.Refs {
 		if len(r) != 3 {
 			return nil, fmt.Errorf("bad ref %v", r)
@@ -123,6 +127,8 @@ func randomTables(rng *rand.Rand, m, k int) [][]int {
 	}
 	return out
 }
+
+var gcRepos int
 
 var refKinds = []string{"head", "tag", "remote", "txn"}
 
@@ -181,6 +187,15 @@ func randomRepo(rng *rand.Rand, blk [][]int, mode string) *repoDesc {
 	}
 	if rng.Intn(3) == 0 {
 		d.Refs = append(d.Refs, refDecl{"txn", 1 + rng.Intn(d.N), 2})
+	}
+	if mode == "gc" {
+		gcRepos++
+	}
+	if mode == "gc" && gcRepos%3 != 0 {
+		// a transaction TTL of 60 days configured in the repository or in the user's (global) configuration: a
+		// transaction of 40 days is still open (state 3), its refs are roots like any other
+		d.TTL = []string{"", "global", "local"}[gcRepos%3]
+		d.Refs = append(d.Refs, refDecl{"txn", d.N - rng.Intn(min(d.N, 3)), 3})
 	}
 	// the store: absent tables (shallow commits), missing profiles, orphans left behind
 	absent := map[int]bool{}
@@ -267,6 +282,34 @@ func execute(u *Universe, d *repoDesc, scratch string) ([]*Event, error) {
 		return nil, err
 	}
 	defer repo.Close()
+	if d.TTL != "" {
+		const ttl = "transactionTTL: 1440h0m0s\n"
+		switch {
+		case repo.Dir == "":
+			return nil, fmt.Errorf("a configured TTL needs a directory repository")
+		case d.TTL == "local":
+			if err := os.WriteFile(filepath.Join(repo.Dir, "config.yaml"), []byte(ttl), 0644); err != nil {
+				return nil, err
+			}
+		default:
+			xdg := filepath.Join(filepath.Dir(repo.Dir), "xdg")
+			if err := os.MkdirAll(filepath.Join(xdg, "wrgl"), 0755); err != nil {
+				return nil, err
+			}
+			if err := os.WriteFile(filepath.Join(xdg, "wrgl", "config.yaml"), []byte(ttl), 0644); err != nil {
+				return nil, err
+			}
+			old, had := os.LookupEnv("XDG_CONFIG_HOME")
+			os.Setenv("XDG_CONFIG_HOME", xdg)
+			defer func() {
+				if had {
+					os.Setenv("XDG_CONFIG_HOME", old)
+				} else {
+					os.Unsetenv("XDG_CONFIG_HOME")
+				}
+			}()
+		}
+	}
 	nonCommit := d.Before
 	if err := u.Populate(repo.DB, nonCommit); err != nil {
 		return nil, err
@@ -281,6 +324,12 @@ func execute(u *Universe, d *repoDesc, scratch string) ([]*Event, error) {
 		begin := time.Now()
 		if r.State == 2 {
 			begin = begin.Add(-40 * 24 * time.Hour) // older than conf.DefaultTransactionTTL (30 days)
+			if d.TTL != "" {
+				begin = begin.Add(-30 * 24 * time.Hour) // ... and than the configured 60 days
+			}
+		}
+		if r.State == 3 {
+			begin = begin.Add(-40 * 24 * time.Hour)
 		}
 		name, err := repo.AddRef(r.Kind, r.C, strconv.Itoa(i), begin)
 		if err != nil {
